@@ -228,8 +228,12 @@ def const_of(n):
             continue
         if 'cv' in x:
             return x['cv']
+        if 'cvs' in x:
+            return int(x['cvs'])
         if x.get('k') == 'int' and 'v' in x:
             return x['v']
+        if x.get('k') == 'int' and 'vs' in x:
+            return int(x['vs'])
         if x.get('k') == 'ref' and x.get('d') == 'enum':
             return x['v']
     return None
